@@ -216,6 +216,8 @@ def r10_1(q, R, spec):
             l = H.local_of(ix)
             init = H.let_init_of(fn["body"], l[0]) if l else None
             src = H.peel(init, tries=True) if init is not None else {}
+            while src.get("k") == "mcall" and src["name"] in ("context", "with_context"):      # anyhow context only decorates the error
+                src = H.peel(src["recv"], tries=True)
             good = False
             if src.get("k") == "mcall" and len(src["args"]) == 1 and (src.get("callee") or {}).get("key") in q.by_key:
                 root, _ = H.place_root(src["recv"])
